@@ -257,10 +257,18 @@ def corr_eval(name, imports, fn, cases, shard=1200, timeout=900, defs=()):
         r = eval_terms(f'{name}{si}', list(imports) + ['From CV Require Import Base.Corr.',
                                                         'From Coq Require Import List ZArith NArith.', 'Import ListNotations.', 'Open Scope nat_scope.'],
                        list(defs) + d, [f'mismatches ({fn}) cases'], timeout=timeout)
-        return [si * shard + k for k in parse_nat_list(r[0])]
+        return [(si * shard + k) if k < 1000000 else -(si * shard + k - 1000000) - 1 for k in parse_nat_list(r[0])]
 
     bad = []
+    LAST_FUEL.clear()
     with ThreadPoolExecutor(max_workers=8) as ex:
         for r in ex.map(one, range(len(shards))):
-            bad += r
+            for k in r:
+                if k >= 0:
+                    bad.append(k)
+                else:
+                    LAST_FUEL.append(-k - 1)   # the model ran out of fuel on this case: undecided, not a disagreement
     return bad
+
+
+LAST_FUEL = []
